@@ -62,11 +62,13 @@ theorem huffTail_total (c : Cutter) (hc : c.OK) (isFirst : Bool) (ll dl : Array 
   have hL := huffLoop_total ll dl hll hdl (8 * c.bits.bytes.size + 2) c none c.decodedLen hc hgl hgd
     (by omega) (by intro i n h; simp at h)
   have hE := huffLoop_err (8 * c.bits.bytes.size + 2) c none c.decodedLen
+  have hG := huffLoop_cpge ll dl hll hdl c.bits.pos (8 * c.bits.bytes.size + 2) c none c.decodedLen hc hgl hgd
+    (Nat.le_refl _) (by intro i n h; simp at h)
   have hmax := hc.max
   refine ⟨k1, k2, ?_, ?_, ?_, ?_⟩
   all_goals
     simp only [Cutter.huffTail]
-    generalize Cutter.huffLoop (8 * c.bits.bytes.size + 2) c none c.decodedLen = res at hL hE
+    generalize Cutter.huffLoop (8 * c.bits.bytes.size + 2) c none c.decodedLen = res at hL hE hG
     obtain ⟨c1, cp, r⟩ := res
     obtain ⟨m1, m2, m3, m4, m5, m6, np, nf, hcp, hret⟩ := hL
     simp only [] at m1 m2 m3 m4 m5 m6 np nf hcp hret hE
@@ -136,15 +138,23 @@ theorem huffTail_total (c : Cutter) (hc : c.OK) (isFirst : Bool) (ll dl : Array 
     split
     · simp
     · obtain ⟨c', e, w⟩ := huffTail_write c1 cpIndex cpNBits q1 (by rw [m6]; exact q2) (by rw [m2, m6]; omega)
+      have hsp := writeEndCode_spec _ c' e (Nat.le_of_lt (unread_nBits_lt _)) (by simp only []; omega)
       simp only [e]
       intro _
-      exact w
+      refine ⟨w, ?_⟩
+      have hge : c.bits.pos ≤ 8 * cpIndex - cpNBits := hG cpIndex cpNBits rfl
+      obtain ⟨_, _, h3, _, _⟩ := hsp
+      simp only [Bitstream.unread] at h3
+      have hw1 := w.nBits_le
+      show c.bits.pos ≤ 8 * c'.bits.index - c'.bits.nBits
+      omega
 
 theorem BlockTotal.transport {c c' : Cutter} {r : Cutter × Option Err} (h : BlockTotal c' r)
     (h1 : c'.maxEncodedLen = c.maxEncodedLen) (h2 : c'.bits.bytes.size = c.bits.bytes.size)
     (h3 : c.bits.pos ≤ c'.bits.pos) : BlockTotal c r :=
   ⟨h.max.trans h1, h.size.trans h2, h.noPanic, h.noFuel,
-    fun hr => ⟨(h.cont hr).1, Nat.le_trans h3 (h.cont hr).2⟩, h.prog⟩
+    fun hr => ⟨(h.cont hr).1, Nat.le_trans h3 (h.cont hr).2⟩,
+    fun hr => ⟨(h.prog hr).1, Nat.le_trans h3 (h.prog hr).2⟩⟩
 
 theorem BlockTotal.of_err (c c' : Cutter) (e : Err) (h1 : c'.maxEncodedLen = c.maxEncodedLen)
     (h2 : c'.bits.bytes.size = c.bits.bytes.size) (hp : e ≠ .panic) (hf : e ≠ .fuel) (hs : e ≠ .someProgress) :
